@@ -826,7 +826,7 @@ EXPORT errno_t _wcsnorm_reorder_s_chk(wchar_t *restrict dest, rsize_t dmax,
         if (cc_pos) {
             size_t i;
 
-            if (unlikely(dmax - cc_pos <= 0)) {
+            if (unlikely(dmax <= cc_pos)) {
                 handle_werror(orig_dest, orig_dmax,
                               "wcsnorm_reorder_s: "
                               "dmax too small",
